@@ -176,3 +176,37 @@ func (p CPath) loadOfField(v ssa.Value, base ssa.Value, sel string) bool {
 	want := strings.TrimPrefix(bp.SelString()+"."+sel, ".")
 	return ap.SelString() == want
 }
+
+// BoolFact is a boolean value whose truth a taken branch decides.
+type BoolFact struct {
+	V    ssa.Value
+	True bool
+	If   *ssa.If
+}
+
+// boolFacts lists the non-comparison conditions decided along the path
+// (negations, phis and spliced helper results followed as in relations).
+func (p CPath) boolFacts() []BoolFact {
+	var out []BoolFact
+	for _, tk := range p.Ifs() {
+		v := tk.If.Cond
+		holds := tk.Arm
+		for i := 0; i < 16; i++ {
+			if u, ok := v.(*ssa.UnOp); ok && u.Op == token.NOT {
+				holds = !holds
+				v = u.X
+				continue
+			}
+			nv := p.Resolve(v)
+			if nv == v {
+				break
+			}
+			v = nv
+		}
+		if _, isBin := v.(*ssa.BinOp); isBin {
+			continue
+		}
+		out = append(out, BoolFact{V: v, True: holds, If: tk.If})
+	}
+	return out
+}
